@@ -7,14 +7,18 @@ Two kinds of cases (structural models, vp/gen/c15_pkgs.py):
   stubs (.pyi siblings, "<name>-stubs" packages); a site-style .pth file with an `import` line; packages that are only
   reachable as alias targets (one of them the private sibling "_<name>" that resolve_external=None loads), possibly only
   importable (source-less .pyc) and invisible to the finder. Loaded with allow_inspection=False, force_inspection=False
-  and every other option drawn freely, by name / by path / through sys.path.
+  and every other option drawn freely, by name / by path / through sys.path. A sampled sixth of these cases goes through the
+  Git entry point instead: the same tree is committed to a scratch repository and loaded with
+  `griffe.load_git(pkg, ref="HEAD", repo=..., allow_inspection=False, ...)` (same oracle).
   Oracle: sentinel file empty; no generated top-level name in sys.modules; sys.path is the same list object with the same
   contents; when the sources of the requested package exist the load completes and no compiled decoy is a loaded module;
   when they do not exist (missing, only a .pyc, only a garbage .so) ModuleNotFoundError is raised (docs: "fail with a
   ModuleNotFoundError directly").
 * fault: inspection allowed (or forced); one module of the generated packages raises RuntimeError / SystemExit / imports a
   missing dependency at import time (any placement), or the top-level name is missing / only importable / a garbage
-  extension file. Oracle: whatever griffe.load returns or raises, sys.path is the same list object with the same
+  extension file. Operations: griffe.load, or the direct inspection entry point `griffe.inspect(name, filepath=..., parent=...)`
+  on one module (the faulting one when possible), with and without explicit import_paths (for inspect only the sys.path
+  clause is judged). Oracle: whatever griffe.load returns or raises, sys.path is the same list object with the same
   contents, and only LoadingError / ImportError (incl. ModuleNotFoundError) escape — what `GriffeLoader.load` and
   `dynamic_import` document.
 """
@@ -26,10 +30,12 @@ import importlib
 import os
 import shutil
 import sys
+import tempfile
 from pathlib import Path
 
 from vp.common.harness import Fail, griffe_frames
 from vp.gen import c15_pkgs as G
+from vp.gen import c20_repo as GR  # git helpers (isolated configuration) for the load_git entry point
 
 ID = "C15"
 LEVEL = "fault_enumeration"
@@ -37,9 +43,10 @@ RULE = (
     "Hypothesis-generated structural cases: 1-3 side-effect packages (every module body appends its dotted name to a sentinel file; "
     "layouts regular/namespace/single module/source-less .pyc/garbage extension file; compiled decoys; stubs; alias and wildcard imports "
     "into packages only reachable as alias targets) x loader options (submodules, resolve_aliases, resolve_implicit, resolve_external in "
-    "{None,True,False}, find_stubs_package, store_source, try_relative_path, by name/path/sys.path) with inspection excluded, and fault "
+    "{None,True,False}, find_stubs_package, store_source, try_relative_path, by name/path/sys.path; 1/6 of them committed to a scratch git "
+    "repository and loaded through griffe.load_git(ref='HEAD', allow_inspection=False)) with inspection excluded, and fault "
     "cases with inspection allowed/forced where one module (any placement) raises RuntimeError/SystemExit/imports a missing dependency or "
-    "the top-level name is missing/only importable. non-trivial = static case with >=3 generated modules and alias resolution requested, "
+    "the top-level name is missing/only importable, operation griffe.load or griffe.inspect(name, filepath=..) with/without import_paths. non-trivial = static case with >=3 generated modules and alias resolution requested, "
     "or fault case with an injected fault / unfindable top-level; distinct = distinct case model (packages, options, fault)"
 )
 ASSUMPTIONS = [
@@ -121,7 +128,37 @@ def _plan(case, r, roots):
     search_paths = None if how in ("syspath", "nosearch") else [str(x) for x in roots]
     extra = [str(x) for x in roots] if how == "syspath" else []
     expect_success = source_layout and target != "missing"
+    if case["kind"] == "static" and case.get("via") == "git":
+        # the Git entry point: same tree, committed; search paths and Path objspecs are relative to the repository root
+        if isinstance(objspec, Path):
+            objspec = Path(os.path.relpath(objspec, roots[0].parent))
+        elif isinstance(objspec, str) and "/" in objspec:
+            objspec = top
+        kw = {k: opts[k] for k in ("submodules", "resolve_aliases", "resolve_implicit", "resolve_external", "find_stubs_package")}
+        return objspec, {"search_paths": [x.name for x in roots], **kw}, [], expect_success
     return objspec, {"search_paths": search_paths, **opts}, extra, expect_success
+
+
+def _inspect_target(case, r, roots):
+    """Module handed to griffe.inspect(): the faulting module when it is an importable source module, else the
+    `inspect_at`-th one. -> (leaf name, file path, parent Module chain or None, dotted) or None."""
+    import griffe
+
+    cands = []
+    for pi, mods in enumerate(r["modules"]):
+        root = roots[case["pkgs"][pi].get("root", 0) % 2]
+        for m in mods:
+            if m["kind"] in ("py", "mod") and m.get("reachable", True):
+                cands.append((m, root))
+    if not cands:
+        return None
+    chosen = next(((m, root) for m, root in cands if m["dotted"] == r["fault_module"]), None) or cands[case.get("inspect_at", 0) % len(cands)]
+    m, root = chosen
+    parts = m["dotted"].split(".")
+    parent = None
+    for part in parts[:-1]:
+        parent = griffe.Module(part, parent=parent)
+    return parts[-1], root / (m["rel"] + ".py"), parent, m["dotted"]
 
 
 def _exc_kind(exc: BaseException) -> str:
@@ -145,14 +182,27 @@ def _from_analysed_code(exc: BaseException, wd: Path) -> bool:
     return False
 
 
+def _what_load(op, objspec, kwargs) -> str:
+    spec = objspec if isinstance(objspec, str) and "/" not in objspec else type(objspec).__name__ + ":" + Path(str(objspec)).name
+    sp = kwargs["search_paths"]
+    return (
+        f"griffe.{op}({spec!r}, " + ('ref="HEAD", repo=<scratch repo>, ' if op == "load_git" else "")
+        + ", ".join(f"{k}={v!r}" for k, v in kwargs.items() if k != "search_paths")
+        + f", search_paths={'None' if sp is None else ('[roots]' if op != 'load_git' else sp)})"
+    )
+
+
 def check_case(case) -> list[Fail]:
     import griffe
 
     fails: list[Fail] = []
     wd = _workdir()
-    roots = [wd / "r0", wd / "r1"]
+    static = case["kind"] == "static"
+    via_git = static and case.get("via") == "git"
+    repo = wd / "repo"
+    roots = [repo / "r0", repo / "r1"] if via_git else [wd / "r0", wd / "r1"]
     for x in roots:
-        x.mkdir()
+        x.mkdir(parents=True)
     sentinel = wd / "sentinel.txt"
     sentinel.write_text("")
     r = G.render(case, str(sentinel))
@@ -161,12 +211,27 @@ def check_case(case) -> list[Fail]:
     for pkg, name in zip(case["pkgs"], names):
         if pkg["layout"] == "ns":
             (roots[pkg.get("root", 0) % 2] / name).mkdir(exist_ok=True)
+            (roots[pkg.get("root", 0) % 2] / name / ".keep").write_text("")  # git does not track empty directories
     objspec, kwargs, extra, expect_success = _plan(case, r, roots)
-    static = case["kind"] == "static"
     if static:
         kwargs.update(allow_inspection=False, force_inspection=False)
     else:
         kwargs.update(allow_inspection=True, force_inspection=bool(case.get("force")))
+    op = "load_git" if via_git else ("load" if static else case.get("op", "load"))
+    insp = None
+    if op in ("inspect", "inspect_paths"):
+        insp = _inspect_target(case, r, roots)
+        if insp is None:
+            op = "load"
+    env_saved = {k: os.environ.get(k) for k in GR.GIT_ENV}
+    tempdir_saved = tempfile.tempdir
+    if via_git:
+        for x in roots:
+            (x / ".keep").write_text("")
+        GR.git(repo, "init", "-q", "-b", "main")
+        GR.git(repo, "add", "-f", "-A")
+        GR.git(repo, "commit", "-q", "-m", "tree", env_extra={"GIT_AUTHOR_DATE": "2024-01-01T12:00:00+0000", "GIT_COMMITTER_DATE": "2024-01-01T12:00:00+0000"})
+        (wd / "tmp").mkdir()
 
     generated_tops = set(names) | {r["missing"]}
     path_obj = sys.path
@@ -179,7 +244,15 @@ def check_case(case) -> list[Fail]:
     exc: BaseException | None = None
     try:
         try:
-            result = griffe.load(objspec, **kwargs)
+            if op == "load_git":
+                os.environ.update(GR.GIT_ENV)
+                tempfile.tempdir = str(wd / "tmp")
+                result = griffe.load_git(objspec, ref="HEAD", repo=str(repo), **kwargs)
+            elif insp is not None:
+                leaf, filepath, parent, _dotted = insp
+                result = griffe.inspect(leaf, filepath=filepath, parent=parent, import_paths=[str(x) for x in roots] if op == "inspect_paths" else None)
+            else:
+                result = griffe.load(objspec, **kwargs)
         except BaseException as e:  # noqa: BLE001  (SystemExit must not kill the check)
             if isinstance(e, KeyboardInterrupt) and not griffe_frames(e.__traceback__):
                 raise
@@ -195,10 +268,18 @@ def check_case(case) -> list[Fail]:
         sys.path = path_obj
         path_obj[:] = path_before_extra
         _purge(generated_tops, wd)
+        tempfile.tempdir = tempdir_saved
+        for k, v in env_saved.items():
+            if v is None:
+                os.environ.pop(k, None)
+            else:
+                os.environ[k] = v
 
-    what = f"griffe.load({objspec if isinstance(objspec, str) and '/' not in objspec else type(objspec).__name__ + ':' + Path(str(objspec)).name!r}, " + ", ".join(
-        f"{k}={v!r}" for k, v in kwargs.items() if k != "search_paths"
-    ) + f", search_paths={'None' if kwargs['search_paths'] is None else '[roots]'})"
+    if insp is not None:
+        what = f"griffe.inspect({insp[0]!r}, filepath=<{insp[3]}>, parent={'None' if insp[2] is None else insp[2].path!r}, import_paths={'[roots]' if op == 'inspect_paths' else 'None'})"
+    else:
+        what = _what_load(op, objspec, kwargs)
+
 
     # ---- clause: sys.path restored (both kinds)
     if new_path_obj is not path_obj:
@@ -256,7 +337,8 @@ def check_case(case) -> list[Fail]:
         # only exceptions that stem from the import of analysed code are judged (the injected RuntimeError / SystemExit /
         # ModuleNotFoundError or anything raised while a generated file is on the stack); an unrelated crash inside Griffe
         # (e.g. in wildcard expansion) is not this property's business and is only counted
-        if exc is not None and not isinstance(exc, (LoadingError, ImportError)) and _from_analysed_code(exc, wd):
+        # (griffe.inspect() documents no exception contract: for it only the sys.path clause is judged)
+        if insp is None and exc is not None and not isinstance(exc, (LoadingError, ImportError)) and _from_analysed_code(exc, wd):
             fails.append(
                 Fail(
                     "fault-exception-family",
@@ -272,6 +354,7 @@ def check_case(case) -> list[Fail]:
         except Exception:  # noqa: BLE001
             ext_loaded = False
     _LAST.update(fault_hit=bool(r["fault_module"]) and r["fault_module"] in executed, ext_loaded=ext_loaded)
+    _LAST.update(op=op)
     _LAST.update(outcome=outcome, executed=len(executed), n_modules=sum(len(m) for m in r["modules"]), n_decoys=len(r["decoys"]), fault_module=r["fault_module"])
     shutil.rmtree(wd, ignore_errors=True)
     return fails
@@ -296,6 +379,7 @@ def describe(case):
         f"{kind}:target:{case['target']}",
         f"{kind}:npkgs:{len(case['pkgs'])}",
         f"{kind}:outcome:{info.get('outcome')}",
+        f"{kind}:entry:{info.get('op')}",
         f"opt:submodules={o['submodules']}",
         f"opt:resolve_aliases={o['resolve_aliases']}",
         f"opt:resolve_implicit={o['resolve_implicit']}",
